@@ -3,6 +3,7 @@
 package worlds
 
 import (
+	"encoding/binary"
 	"context"
 	"crypto/tls"
 	"fmt"
@@ -44,6 +45,7 @@ type ntsTransport interface {
 	ntp(d *simnet.Datagram) []byte
 	// rewrap returns d's bytes with the NTP/NTS payload replaced (lengths and checksums fixed)
 	rewrap(d *simnet.Datagram, payload []byte) []byte
+	rewrapTrailing(d *simnet.Datagram, payload, trailing []byte) []byte
 	// requestOf follows a datagram back to the client-sent datagram that caused it (0 if none)
 	requestOf(d *simnet.Datagram) uint64
 	measure(timeout time.Duration) error
@@ -121,6 +123,9 @@ func (t ntsIPTransport) lastHopToServer(d *simnet.Datagram) bool { return t.isRe
 func (t ntsIPTransport) ntp(d *simnet.Datagram) []byte           { return d.Payload }
 func (t ntsIPTransport) rewrap(d *simnet.Datagram, payload []byte) []byte {
 	return payload
+}
+func (t ntsIPTransport) rewrapTrailing(d *simnet.Datagram, payload, trailing []byte) []byte {
+	return append(append([]byte(nil), payload...), trailing...)
 }
 func (t ntsIPTransport) requestOf(d *simnet.Datagram) uint64 { return requestOfChain(t.net, t.cli, d) }
 func (t ntsIPTransport) measure(timeout time.Duration) error {
@@ -207,6 +212,17 @@ func (t ntsSCIONTransport) lastHopToServer(d *simnet.Datagram) bool {
 func (t ntsSCIONTransport) rewrap(d *simnet.Datagram, payload []byte) []byte {
 	p := parseSCION(d.Payload)
 	return scRebuild(p, func(s *slayers.SCION, u *slayers.UDP, pld *[]byte) { *pld = payload })
+}
+// rewrapTrailing puts trailing behind the end of the UDP datagram, inside the SCION payload:
+// the UDP length covers payload only, the SCION payload length covers both.
+func (t ntsSCIONTransport) rewrapTrailing(d *simnet.Datagram, payload, trailing []byte) []byte {
+	raw := t.rewrap(d, payload)
+	if raw == nil {
+		return nil
+	}
+	raw = append(raw, trailing...)
+	binary.BigEndian.PutUint16(raw[6:], binary.BigEndian.Uint16(raw[6:])+uint16(len(trailing)))
+	return raw
 }
 func (t ntsSCIONTransport) requestOf(d *simnet.Datagram) uint64 {
 	return requestOfChain(t.net, t.cli, d)
